@@ -365,7 +365,7 @@ NOT_DECIDED = {'C19': ['WHICH cells Canvas::plane produces (its loops are under 
 
 BOUNDED = {'C19': [{'name': 'drawn-tables-are-recognised-as-drawn', 'script': 'drawdiff.py', 'args': [],
                     'functions': ['canvas::scan', 'Canvas::plane', 'Recognizer::recognize (recognize_horizontal_table, pivot)', 'builder::build'],
-                    'bound': '406 generated drawings: rules as rows and rules as columns, 1..3 inputs, 1..2 outputs, 0..2 annotations, 1..3 rules, each of the 11 hit policy markers, with and without information item name (box narrower than and exactly as wide as the table), rule rows one to three text lines high, with and without '
+                    'bound': '424 generated drawings (18 of them with an input entry shared by two consecutive rules - a merged cell - in the first / last / only input column): rules as rows and rules as columns, 1..3 inputs, 1..2 outputs, 0..2 annotations, 1..3 rules, each of the 11 hit policy markers, with and without information item name (box narrower than and exactly as wide as the table), rule rows one to three text lines high, with and without '
                              'allowed values (rules as rows), cell texts at varying offsets and widths: dmntk_recognizer::build gives back hit policy, aggregator, orientation, input expressions, allowed values, output label / '
                              'component names, annotation names and all rule entries in order (white space around cell texts aside)'},
                    {'name': 'single-character-corruptions-never-panic', 'script': 'corruptdiff.py', 'args': [], 'quick_args': ['--quick'],
